@@ -29,7 +29,8 @@ LEVEL = "exploration"
 LEVEL_TEXT = (
     "Exploration: the four calling programs were run in-process on generated BAM/FASTA/VCF datasets (1-4 samples, ploidy 2/4/6 mixed "
     "through a ploidy file, loci with 0-5 SNVs, samples without reads, sample pools, trios / half-sibs with unobserved parents, "
-    "REFMASKED / filtered / zero-prior input haplotypes, NOA and AF0 records, up to 7 alleles with ploidy 6) under sampled --report "
+    "REFMASKED / filtered / zero-prior input haplotypes, NOA and AF0 records, 1-7 input alleles for the call programs and up to ~20 "
+    "assembled alleles with ploidy 6, i.e. G-vectors of >100000 entries) under sampled --report "
     "sets (none, the full set, every singleton in rotation, random subsets). Every emitted record was parsed independently and "
     "checked for declared keys, Number cardinalities (1/A/R/G), GT shape and order, REF/ALT against the reference text and the "
     "input variants, INFO totals recomputed from the sample columns, and every token against the captured internal value rounded "
